@@ -37,6 +37,7 @@ namespace {
     size_t pos = 0;
     std::vector<Dec> decs;
     std::unordered_map<unsigned, bool> dcache;
+    std::vector<z3::expr> dkeep; // keeps decided conditions alive (AST ids are the cache keys)
     std::map<void *, int> site_hits;
     int draw_idx[2] = {0, 0};
     int side = 0;
@@ -446,6 +447,7 @@ namespace {
     e.pos++;
     add_pc(d ? c : !c);
     e.dcache[c.id()] = d;
+    e.dkeep.push_back(c);
     return d;
   }
 
@@ -491,6 +493,7 @@ namespace {
     e.pos    = 0;
     e.decs.clear();
     e.dcache.clear();
+    e.dkeep.clear();
     e.site_hits.clear();
     e.draw_idx[0] = e.draw_idx[1] = 0;
     e.side         = 0;
